@@ -513,6 +513,10 @@ def stepAsync (st : DState) (args : List String) : Option (DState × String) :=
       let o := match res with | .ready _ => "ready" | .pending => "pending" | .err e => s!"err {showIoErr e}" | .panic _ => "panic"
       fin { a with writers := updWriter a.writers idx (some w), mutex := m, tr := t } o
     | none => some (st, "no-writer")
+  | ["a.cpoll", i] => do   -- `StreamWriter::poll_close`: `Poll::Ready(Ok(()))`, no state change, no I/O
+    match a.writers.getD (← natArg i) none with
+    | some _ => fin a "ready"
+    | none => some (st, "no-writer")
   | ["a.drop", i] => do
     let idx ← natArg i
     match a.writers.getD idx none with
@@ -670,6 +674,12 @@ def stepRunner (st : DState) (args : List String) : Option (DState × String) :=
     else some (st, "no-token")
   | ["g.new", n] => do
     let m ← natArg n
+    some ({ st with k := { k with wg := Runner.WG.init m, wgWakes := 0, wgWakesB := 0, wgReg := 0 } }, "ok")
+  | ["g.new", n, c] => do
+    -- a clone of the runner holding `c` tokens of its own: it shares the connection limit, NOT the wait group — the shutdown of the
+    -- original is a function of the original's tokens alone, so the clone's side does not appear in the model state
+    let m ← natArg n
+    let _ ← natArg c
     some ({ st with k := { k with wg := Runner.WG.init m, wgWakes := 0, wgWakesB := 0, wgReg := 0 } }, "ok")
   | ["g.poll"] => let (k', o) := gPollCore k 0; some ({ st with k := k' }, o)
   | ["g.poll2"] => let (k', o) := gPollCore k 1; some ({ st with k := k' }, o)
